@@ -52,6 +52,14 @@ class _Expr(ast.NodeTransformer):
 
     def visit_Compare(self, node):
         self.generic_visit(node)
+        # x in ("a", "b")  ->  x == "a" or x == "b"     (a tuple literal of constants; x a plain name or attribute: evaluated repeatedly for free)
+        if len(node.ops) == 1 and isinstance(node.ops[0], (ast.In, ast.NotIn)) and isinstance(node.comparators[0], ast.Tuple) and 1 <= len(node.comparators[0].elts) <= 4 \
+                and all(isinstance(e, ast.Constant) for e in node.comparators[0].elts) and isinstance(node.left, (ast.Name, ast.Attribute)):
+            pos = isinstance(node.ops[0], ast.In)
+            parts = [ast.copy_location(ast.Compare(left=copy.deepcopy(node.left), ops=[ast.Eq() if pos else ast.NotEq()], comparators=[e]), node) for e in node.comparators[0].elts]
+            if len(parts) == 1:
+                return parts[0]
+            return ast.copy_location(ast.BoolOp(op=ast.Or() if pos else ast.And(), values=parts), node)
         # membership in d.keys() is membership in d
         if len(node.ops) == 1 and isinstance(node.ops[0], (ast.In, ast.NotIn)):
             c = node.comparators[0]
@@ -232,6 +240,14 @@ class _Stmt(ast.NodeTransformer):
                     out.append(ast.copy_location(ast.Return(value=val), s))
                     i += consumed
                     continue
+            # if C: return K1 ; return K2   ->   return K1 if C else K2      (constants; the boolean case is handled above)
+            if isinstance(s, ast.If) and not s.orelse and len(s.body) == 1 and isinstance(s.body[0], ast.Return) and isinstance(s.body[0].value, ast.Constant) \
+                    and isinstance(nxt, ast.Return) and isinstance(nxt.value, ast.Constant) and i + 2 == len(stmts) and not getattr(s, "_elif", False) \
+                    and not isinstance(s.body[0].value.value, bool) and not isinstance(nxt.value.value, bool):
+                val = ast.copy_location(ast.IfExp(test=s.test, body=s.body[0].value, orelse=nxt.value), s)
+                out.append(ast.copy_location(ast.Return(value=val), s))
+                i += 2
+                continue
             # x = E ; return x   ->   return E
             if isinstance(s, ast.Assign) and len(s.targets) == 1 and isinstance(s.targets[0], ast.Name) and isinstance(nxt, ast.Return) and isinstance(nxt.value, ast.Name) \
                     and nxt.value.id == s.targets[0].id and _uses(s.targets[0].id, [s.value]) == 0:
@@ -476,9 +492,13 @@ def _inline_procedures(tree: ast.Module) -> ast.Module:
         a = d.args
         if a.vararg or a.kwarg or a.kwonlyargs or a.posonlyargs or a.defaults or not body:
             continue
+        result = None
+        if isinstance(body[-1], ast.Return) and isinstance(body[-1].value, ast.Name) and len(body) > 1:
+            # ... ; return <local>  : usable as  x = _helper(...)
+            result, body = body[-1].value.id, body[:-1]
         if any(isinstance(x, (ast.Return, ast.Yield, ast.YieldFrom, ast.Await, ast.FunctionDef, ast.AsyncFunctionDef, ast.Lambda, ast.Global, ast.Nonlocal)) for b in body for x in ast.walk(b)):
             continue
-        cands[name] = (d, body, [x.arg for x in a.args])
+        cands[name] = (d, body, [x.arg for x in a.args], result)
     if not cands:
         return tree
 
@@ -489,15 +509,20 @@ def _inline_procedures(tree: ast.Module) -> ast.Module:
         def _block(self, stmts, fn_names):
             out = []
             for st in stmts:
-                if isinstance(st, ast.Expr) and isinstance(st.value, ast.Call) and isinstance(st.value.func, ast.Name) and st.value.func.id in cands and not st.value.keywords \
-                        and all(isinstance(x, ast.Name) for x in st.value.args):
-                    d, body, params = cands[st.value.func.id]
-                    if len(params) == len(st.value.args):
-                        m = {p_: x.id for p_, x in zip(params, st.value.args)}
+                call = st.value if isinstance(st, (ast.Expr, ast.Assign)) else None
+                target = st.targets[0].id if isinstance(st, ast.Assign) and len(st.targets) == 1 and isinstance(st.targets[0], ast.Name) else None
+                if isinstance(call, ast.Call) and isinstance(call.func, ast.Name) and call.func.id in cands and not call.keywords \
+                        and all(isinstance(x, ast.Name) for x in call.args) and (isinstance(st, ast.Expr) or target is not None) \
+                        and (cands[call.func.id][3] is not None) == (target is not None):
+                    d, body, params, result = cands[call.func.id]
+                    if len(params) == len(call.args):
+                        m = {p_: x.id for p_, x in zip(params, call.args)}
+                        if result is not None:
+                            m[result] = target
                         stored = {x.id for b in body for x in ast.walk(b) if isinstance(x, ast.Name) and isinstance(x.ctx, ast.Store)}
                         if not (stored & set(params)):
                             for loc in stored:
-                                if loc in fn_names and loc not in m:
+                                if loc in fn_names and loc not in m and loc != target:
                                     m[loc] = loc + "_h"
 
                             class Ren(ast.NodeTransformer):
@@ -510,7 +535,7 @@ def _inline_procedures(tree: ast.Module) -> ast.Module:
                                         x.lineno = st.lineno
                                         x.end_lineno = getattr(st, "end_lineno", st.lineno)
                                 out.append(nb)
-                            self.done.add(st.value.func.id)
+                            self.done.add(call.func.id)
                             continue
                 out.append(st)
             return out
